@@ -113,6 +113,26 @@ def run(p, report, tier):
         for _k, _v in it.stats.items():
             callstats[_k] = callstats.get(_k, 0) + _v
         check_entity(p, report, ci, f, it, ctor_rng_draws_ok=False)
+        # picklability: a function object created inside the call (closure, lambda) stored on the strategy
+        # cannot be pickled afterwards
+        n_store = 0
+        for ev in it.events:
+            if ev.kind != "attr_store":
+                continue
+            base = ev.data["base"]
+            if not any(r == "self" and not pth for (r, pth) in base.origins):
+                continue
+            n_store += 1
+            v = ev.data["value"]
+            local_fn = [r for r in v.ref if r[0] in ("nested", "lambda")]
+            if local_fn:
+                report.add("R5.4", f"{ci.name}.{f.name}", f"`{norm_stmt(ev.node, 60)}` keeps the strategy picklable", ev.loc, False,
+                           detail="a function defined inside the call (closure / lambda) is stored on the strategy: "
+                                  "pickle.dumps(strategy) fails after the first query", path=ev.path())
+        report.add("R5.4", f"{ci.name}.{f.name}", "no locally defined function is stored on the strategy", f"{f.file}:{f.node.lineno}",
+                   True, detail=f"{n_store} attribute stores inspected", nontrivial=False)
+    report.rule("R5.4", "the strategy stays picklable: no closure / lambda created inside a query is stored in an attribute "
+                "of the strategy", floor=30)
     report.analysed["member_copy_sites"] = check_member_copies(p, report, "R5.3")
     report.analysed["events"] = nev
     report.analysed["diagnostics"] = sorted(diag)
